@@ -1,0 +1,58 @@
+//go:build verif
+
+package galaxy
+
+import (
+	"bytes"
+	"net/http"
+	"net/http/httptest"
+
+	"github.com/emicklei/go-restful"
+	"k8s.io/client-go/kubernetes"
+	"tkestack.io/galaxy/pkg/api/docker"
+	galaxyapi "tkestack.io/galaxy/pkg/api/galaxy"
+	"tkestack.io/galaxy/pkg/galaxy/options"
+	"tkestack.io/galaxy/pkg/network/portmapping"
+	"tkestack.io/galaxy/pkg/policy"
+)
+
+// This file is compiled only with -tags verif. It exports the few unexported entry points that the
+// verification harness under /verif needs to drive; it changes no behaviour.
+
+// VerifNewGalaxy builds a Galaxy from an already decoded json config and injected collaborators instead of
+// the ones Init()/Start() create from the host (docker socket, iptables binary, kubeconfig). It runs the same
+// network-config check as Init().
+func VerifNewGalaxy(conf JsonConf, opts *options.ServerRunOptions, client kubernetes.Interface,
+	dockerCli *docker.DockerInterface, pmhandler *portmapping.PortMappingHandler, pm *policy.PolicyManager) (*Galaxy, error) {
+	g := NewGalaxy()
+	if opts != nil {
+		g.ServerRunOptions = opts
+	}
+	g.JsonConf = conf
+	if err := g.checkNetworkConf(); err != nil {
+		return nil, err
+	}
+	g.client = client
+	g.dockerCli = dockerCli
+	g.pmhandler = pmhandler
+	g.pm = pm
+	return g, nil
+}
+
+// VerifServeCNI passes one request body through the real /cni handler (no socket) and returns the HTTP status
+// and response body.
+func (g *Galaxy) VerifServeCNI(body []byte) (int, []byte) {
+	httpReq := httptest.NewRequest(http.MethodPost, "/cni", bytes.NewReader(body))
+	rec := httptest.NewRecorder()
+	g.cni(restful.NewRequest(httpReq), restful.NewResponse(rec))
+	return rec.Code, rec.Body.Bytes()
+}
+
+// VerifRequestFunc calls requestFunc directly.
+func (g *Galaxy) VerifRequestFunc(req *galaxyapi.PodRequest) ([]byte, error) { return g.requestFunc(req) }
+
+// VerifSetupIPtables runs the start-time port-mapping synchronisation.
+func (g *Galaxy) VerifSetupIPtables() error { return g.setupIPtables() }
+
+// VerifCleanIPtables is the port-clean callback Start() hands to the garbage collector.
+func (g *Galaxy) VerifCleanIPtables(containerID string) error { return g.cleanIPtables(containerID) }
